@@ -68,7 +68,21 @@ static inline HeadStatus read_head(const uint8_t* b, size_t n, size_t p, Head& h
     h.kind = mt == 2 ? K_BSTR_INDEF : mt == 3 ? K_TSTR_INDEF : mt == 4 ? K_ARR_INDEF : mt == 5 ? K_MAP_INDEF : K_BREAK;
     return H_OK;
   }
-  if (n - p < h.hlen) { if (need) *need = h.hlen; return H_INCOMPLETE; }
+  if (n - p < h.hlen) {
+    // the argument is cut.  What the pending item is known to occupy at least: the head, plus — for a definite
+    // string — the smallest payload the length bytes seen so far still allow (missing low-order bytes taken as 0)
+    if (need) {
+      u128 least = h.hlen;
+      if (mt == 2 || mt == 3) {
+        size_t have = n - p - 1; u128 partial = 0;
+        for (size_t i = 0; i < have; i++) partial = (partial << 8) | b[p + 1 + i];
+        partial <<= 8 * ((size_t)argw - have);
+        least += partial;
+      }
+      *need = least;
+    }
+    return H_INCOMPLETE;
+  }
   uint64_t arg = ai;
   if (argw) { arg = 0; for (int i = 0; i < argw; i++) arg = (arg << 8) | b[p + 1 + i]; }
   h.arg = arg;
